@@ -116,6 +116,28 @@ def cross_crs_pair(rng: random.Random, max_n: int = 40):
     return src, dst, place
 
 
+def cross_crs_pair_large(rng: random.Random):
+    """A 3-5 degree source lying inside a larger, many-pixel destination in another CRS: footprint edges are visibly curved in
+    destination pixels, so planning from corners alone is not enough."""
+    for _ in range(20):
+        e1, e2 = rng.sample(gen.CRS_WINDOWS, 2)
+        lo = (max(e1[1], e2[1]), min(e1[3], e2[3]))
+        la = (max(e1[2], e2[2]), min(e1[4], e2[4]))
+        if lo[1] - lo[0] < 12 or la[1] - la[0] < 12:
+            continue
+        sz = rng.choice([3.0, 5.0])
+        lon = rng.uniform(lo[0] + 1.6 * sz, lo[1] - 1.6 * sz)
+        # towards the high-latitude end of the window: meridian convergence bends projected edges most there
+        hi = la[1] if abs(la[1]) >= abs(la[0]) else la[0]
+        lat = hi - math.copysign(1.6 * sz + rng.uniform(0, 4), hi)
+        src = _box_at(rng, e1[0], lon, lat, sz, rng.choice([60, 120]), 0)
+        dst = _box_at(rng, e2[0], lon + rng.choice([0, 0.3 * sz]), lat, sz * rng.choice([1.5, 2]), rng.choice([350, 450]), 0)
+        if dst.shape[0] * dst.shape[1] > 280000:
+            dst = dst.crop((450, 600))
+        return src, dst, "large"
+    return None
+
+
 def _box_at(rng, crs, lon, lat, size_deg, n, rot):
     from odc.geo.geobox import GeoBox
 
